@@ -167,7 +167,11 @@ func handleSUR() diam.HandlerFunc {
 				"No ChargingData found for UE:[%+v] for RG:[%+v]", subscriberId, rg)
 			return
 		}
-		unitCostStr := chargingInterface["unitCost"].(string)
+		// a stored unit cost that is not text is treated like malformed text: unit cost 0
+		unitCostStr, isString := chargingInterface["unitCost"].(string)
+		if !isString {
+			logger.RatingLog.Errorf("unitCost of UE:[%+v] RG:[%+v] is not a string", subscriberId, rg)
+		}
 		monetaryTariff := buildTaffif(unitCostStr)
 		unitCost := datatype.Unsigned32(monetaryTariff.RateElement.UnitCost.ValueDigits) *
 			datatype.Unsigned32(math.Pow10(int(monetaryTariff.RateElement.UnitCost.Exponent)))
@@ -187,7 +191,13 @@ func handleSUR() diam.HandlerFunc {
 			sua.ServiceRating.Price = monetaryCost
 		// price for the reserved units
 		case charging_datatype.REQ_SUBTYPE_RESERVE:
-			sua.ServiceRating.AllowedUnits = sr.MonetaryQuota / unitCost
+			if unitCost != 0 {
+				sua.ServiceRating.AllowedUnits = sr.MonetaryQuota / unitCost
+			} else {
+				// no usable tariff (unit cost "0" or malformed): the quota buys nothing that can be rated
+				logger.RatingLog.Warnf("Unit cost of UE:[%+v] RG:[%+v] is 0, allow no units", subscriberId, rg)
+				sua.ServiceRating.AllowedUnits = datatype.Unsigned32(0)
+			}
 			sua.ServiceRating.Price = sua.ServiceRating.AllowedUnits * unitCost
 		default:
 			logger.RatingLog.Warnf("Unknow request type")
